@@ -234,7 +234,8 @@ def writes_in(f, n):
             for j, a_ in enumerate(args(x)):
                 if j < len(pk) and pk[j] in "rp":
                     yield a_, "byref-arg", x
-        elif x["k"] == "construct":
+        elif x["k"] == "construct" and not (strip_targs(x.get("cls", "")) == "nano::tensor_t" and len(x.get("c", ())) == 1 and
+                                          "tensor_t<" in ((x["c"][0] or {}).get("t") or "")):
             pk = x.get("pk", "")
             for j, a_ in enumerate(x.get("c", ())):
                 if j < len(pk) and pk[j] in "rp":
